@@ -374,6 +374,13 @@ func (w *worker) checkSeq(file string, seq []add) {
 			err = signers.ApplyBinPatch(f, dest, bytes.NewReader(dump))
 		}
 		f.Close()
+		// the files of this check are a few bytes long: a result beyond 1 MiB
+		// is judged by its size alone (it may be a sparse file of gigabytes)
+		if st, serr := os.Stat(dest); serr == nil && st.Size() > 1<<20 {
+			run.Violation("wrong-size:"+strategy, fmt.Sprintf("%s: the result is %d bytes long (input %d bytes)", desc, st.Size(), len(file)), map[string]any{"file": file, "seq": seq, "strategy": strategy, "size": st.Size()})
+			os.Remove(dest)
+			return
+		}
 		got, rerr := os.ReadFile(dest)
 		untouched := false
 		if err != nil {
